@@ -391,11 +391,33 @@ func c01(p *an.Prog, r *an.R, tier string) {
 			}
 		}
 		if reason == "" {
-			for _, rs := range reasons {
-				for _, gd := range guards {
-					if reason == "" && an.Implied(gd.cond, gd.truth, rs.holds) {
-						reason = rs.name
+			// a condition justifies the skip if it implies one of the reasons; a disjunction taken true
+			// (or a conjunction taken false) justifies it if each alternative does
+			var why func(cond ast.Expr, truth bool) string
+			why = func(cond ast.Expr, truth bool) string {
+				for _, rs := range reasons {
+					if an.Implied(cond, truth, rs.holds) {
+						return rs.name
 					}
+				}
+				c := ast.Unparen(cond)
+				if u, ok := c.(*ast.UnaryExpr); ok && u.Op == token.NOT {
+					return why(u.X, !truth)
+				}
+				if be, ok := c.(*ast.BinaryExpr); ok && ((be.Op == token.LOR && truth) || (be.Op == token.LAND && !truth)) {
+					a, b := why(be.X, truth), why(be.Y, truth)
+					if a != "" && b != "" {
+						if a == b {
+							return a
+						}
+						return a + "-or-" + b
+					}
+				}
+				return ""
+			}
+			for _, gd := range guards {
+				if reason == "" {
+					reason = why(gd.cond, gd.truth)
 				}
 			}
 		}
